@@ -246,7 +246,8 @@ func (u *Unit) typeFacts(v *Term, t types.Type) *Term {
 			return And(Le(BigLit(lo), v), Le(v, BigLit(hi)))
 		}
 	case SSlice:
-		return And(Ge(slen(v), IntLit(0)), Ge(soff(v), IntLit(0)), Ge(scap(v), slen(v)))
+		// lengths are Go ints: bounded, so index arithmetic on them stays inside the int range
+		return And(Ge(slen(v), IntLit(0)), Ge(soff(v), IntLit(0)), Ge(scap(v), slen(v)), Le(Add(soff(v), scap(v)), IntLit(9223372036854775807)))
 	case SPtr:
 		return Ge(pidx(v), IntLit(0))
 	case SStr:
